@@ -6,6 +6,7 @@ DSL of coq/theories/Recorder/Dsl.v.  For every call site a real decorated functi
 body interprets the site's body; operations are real decorated methods of freshly created classes.
 Observables per run: outcome seen by the caller, trace (EBegin/EBody/ECall), spy-cassette calls, playback and
 recorded outputs, recorder fields afterwards."""
+import json
 import os
 import shutil
 import tempfile
@@ -259,14 +260,18 @@ def evaluate(e, env):
     return v
 
 
-def build_input(ctx, site):
-    cfg = site["cfg"]
-    rec = ctx.rec
+def build_input(shared):
+    """shared = {"ctx": .., "site": ..}: ONE decorated function serves every call site of the history that has the same
+    configuration and body (as one real function is called from many places), so state kept in a decorator's closure
+    between calls shows; the closure reads the current run's context and call site through `shared`."""
+    cfg = shared["site"]["cfg"]
+    rec = shared["ctx"].rec
     alias = cfg["alias"]
     static = cfg["static"]
     off = 0 if static else 1
 
     def body(*a, **kw):
+        ctx, site = shared["ctx"], shared["site"]
         aa, kk = ev_args(a, kw)
         ctx.trace.append({"e": "body", "alias": alias, "args": aa, "kwargs": kk})
         r = interp(ctx, site["body"], list(a) + list(kw.values()))
@@ -325,12 +330,13 @@ def build_input(ctx, site):
     return lambda a, kw: svc.f(*a, **kw)
 
 
-def build_output(ctx, site):
-    cfg = site["cfg"]
-    rec = ctx.rec
+def build_output(shared):
+    cfg = shared["site"]["cfg"]
+    rec = shared["ctx"].rec
     alias = cfg["alias"]
 
     def body(*a, **kw):
+        ctx, site = shared["ctx"], shared["site"]
         aa, kk = ev_args(a, kw)
         ctx.trace.append({"e": "body", "alias": alias, "args": aa, "kwargs": kk})
         r = interp(ctx, site["body"], list(a) + list(kw.values()))
@@ -347,13 +353,29 @@ def build_output(ctx, site):
     return lambda a, kw: svc.f(*a, **kw)
 
 
+def _plain(c):
+    """a program term without the driver's own annotations (keys starting with '_')"""
+    if isinstance(c, dict):
+        return {k: _plain(v) for k, v in c.items() if not k.startswith("_")}
+    if isinstance(c, list):
+        return [_plain(x) for x in c]
+    return c
+
+
 def call_site(ctx, site, env, builder):
     a = [evaluate(e, env) for e in site["args"]]
     kw = {k: evaluate(e, env) for k, e in site["kwargs"]}
-    fn = site.get("_fn")
-    if fn is None or site.get("_ctx") is not ctx:
-        fn = builder(ctx, site)
-        site["_fn"], site["_ctx"] = fn, ctx
+    cache = ctx.rec.__dict__.setdefault("_verif_fn_cache", {})
+    key = site.get("_key")
+    if key is None:
+        key = site["_key"] = json.dumps([site["k"], site["cfg"], _plain(site["body"])], sort_keys=True, default=str)
+    ent = cache.get(key)
+    if ent is None:
+        shared = {"ctx": ctx, "site": site}
+        ent = cache[key] = (builder(shared), shared)
+    fn, shared = ent
+    outer = (shared["ctx"], shared["site"])
+    shared["ctx"], shared["site"] = ctx, site
     alias = site["cfg"]["alias"]
     aa, kk = ev_args(a, kw)
     ctx.trace.append({"e": "begin", "alias": alias, "args": aa, "kwargs": kk, "kind": site["k"]})
@@ -363,6 +385,8 @@ def call_site(ctx, site, env, builder):
     except BaseException as ex:
         ctx.trace.append({"e": "call", "alias": alias, "o": outcome_of_exc(ex)})
         raise
+    finally:
+        shared["ctx"], shared["site"] = outer
     if id(site) in ctx.last_body_result and ctx.last_body_result[id(site)] is not r:
         ctx.identity_violations += 1      # the body ran but the caller got a different object (C04)
     ctx.trace.append({"e": "call", "alias": alias, "o": {"o": "val", "v": from_py(r)}})
